@@ -82,3 +82,77 @@ def check_container_elements(col, rule: str, methods):
         col.add(rule, f.short, "elements-translated-with-retain_scope", ok,
                 "every element must be translated with retain_scope=True, otherwise the loop/if (and the First() emptiness throw) opened by one "
                 "element encloses the code of the next; the sibling handlers visit_Tuple/visit_List/visit_Dict must agree", f.loc)
+
+
+def check_finder(col, rule: str, repo: Repo):
+    """cpp_ast_finder.visit_Call: children first, match by name for Name and Attribute callees, every call visited."""
+    c = repo.find_class("cpp_ast_finder")
+    v = c.methods.get("visit_Call")
+    if v is None:
+        raise AnalysisError("cpp_ast_finder.visit_Call not found")
+    from sa.core.paths import enumerate_paths
+    paths = enumerate_paths(v.node)
+    ok = bool(paths)
+    for p in paths:
+        if p.status == "raise":
+            continue
+        idx_gv = [i for i, e in enumerate(p.events) if e.kind == "call" and call_name(e.node) == "generic_visit"]
+        idx_try = [i for i, e in enumerate(p.events) if e.kind == "call" and call_name(e.node) == "try_call"]
+        # children visited on every path, and before any attempt to rewrite this call
+        if not idx_gv or (idx_try and idx_gv[0] > idx_try[0]):
+            ok = False
+    col.add(rule, "cpp_ast_finder.visit_Call", "children-visited-first-on-every-path", ok,
+            "self.generic_visit(node) must run on every path and before the call itself is matched: otherwise plug-in calls nested in the "
+            "arguments of a rewritten call (a collection inside DeltaR(...), a helper inside a helper) are never rewritten", v.loc)
+    s = src(v.node)
+    by_name = "func.attr" in s and "func.id" in s
+    col.add(rule, "cpp_ast_finder.visit_Call", "matches-method-and-function-style-calls-by-name", by_name,
+            "both obj.name(...) and name(...) callees must be looked up by their name", v.loc)
+    tc = c.methods.get("try_call")
+    okt = tc is not None and any(isinstance(n, ast.Compare) and isinstance(n.ops[0], ast.In) and src(n.comparators[0]) == "self._method_names"
+                                 for n in ast.walk(tc.node)) and any(
+        isinstance(n, ast.Call) and isinstance(n.func, ast.Subscript) and src(n.func.value) == "self._method_names" and src(n.args[0]) == "node"
+        for n in ast.walk(tc.node))
+    col.add(rule, "cpp_ast_finder.try_call", "callback-of-that-name-applied-to-the-node", bool(okt),
+            "try_call must invoke self._method_names[name](node)", tc.loc if tc else c.module.rel)
+    # the executor builds the finder from its own table plus this query's metadata, on a copy
+    aat = repo.method("executor", "apply_ast_transformations", hint="common.executor")
+    fin = [c2 for c2 in ast.walk(aat.node) if isinstance(c2, ast.Call) and call_name(c2) == "cpp_ast_finder"]
+    okc = len(fin) == 1 and isinstance(fin[0].args[0], ast.Name)
+    if okc:
+        ds = defs_of(aat.node, fin[0].args[0].id)
+        okc = bool(ds) and not any(src(d) == "self._method_names" for d in ds) and any("self._method_names" in src(d) for d in ds)
+    col.add(rule, "executor.apply_ast_transformations", "finder-built-from-a-copy-of-the-method-table", okc,
+            "the rewriter must receive dict(self._method_names) updated with this query's metadata (the executor's own table must not be mutated)", aat.loc)
+    # metadata callbacks bind their own specification (no late-binding closure over a loop variable)
+    bad = late_binding_closures(aat.node)
+    col.add(rule, "executor.apply_ast_transformations", "callbacks-bind-their-own-specification", not bad,
+            f"closures capturing a loop variable by reference: {bad} - every callback would use the last specification processed", aat.loc)
+
+
+def late_binding_closures(fn: ast.AST) -> List[str]:
+    """Lambdas / nested defs created inside a for loop or comprehension that read the loop variable without binding it
+    as a default argument (classic late binding: all closures see the last value)."""
+    out = []
+    for n in ast.walk(fn):
+        scopes = []
+        if isinstance(n, (ast.For, ast.AsyncFor)):
+            loopvars = {x.id for x in ast.walk(n.target) if isinstance(x, ast.Name)}
+            # variables assigned in the loop body from the loop variable also late-bind
+            derived = set()
+            for st in ast.walk(n):
+                if isinstance(st, ast.Assign) and isinstance(st.targets[0], ast.Name) and any(
+                        isinstance(x, ast.Name) and x.id in loopvars for x in ast.walk(st.value)):
+                    derived.add(st.targets[0].id)
+            scopes.append((loopvars | derived, n.body))
+        for vars_, body in scopes:
+            for st in body:
+                for lam in ast.walk(st):
+                    if isinstance(lam, (ast.Lambda, ast.FunctionDef)):
+                        params = {a.arg for a in lam.args.args + lam.args.kwonlyargs}
+                        used = {x.id for x in ast.walk(lam.body if isinstance(lam, ast.Lambda) else ast.Module(body=lam.body, type_ignores=[]))
+                                if isinstance(x, ast.Name)}
+                        captured = (used & vars_) - params
+                        if captured:
+                            out.append(f"line {lam.lineno}: {sorted(captured)}")
+    return out
